@@ -38,6 +38,8 @@ type GenCfg struct {
 	NoID65535        bool
 	NoBinaryMapVal   bool
 	NoZeroSizeStruct bool // avoid by-value structs with no fields
+	NoWide           bool // no structs with 33..300 fields
+	WideEnums        bool // enum variables may hold values outside int32 (size/buffer contract only: C04)
 	maxNestZero      bool // every struct position is a named reference
 }
 
@@ -89,6 +91,14 @@ func genStruct(t *rapid.T, c GenCfg, nest int, label string) *StructSpec {
 	if c.NoZeroSizeStruct && nf == 0 {
 		nf = 1
 	}
+	// wide structs: more fields (and, now and then, more required fields) than one machine word of
+	// presence bits; the fields beyond the first few are scalars, ids mostly dense
+	wide, wideReq := false, 0
+	if nest <= 1 && !c.NoWide && rapid.IntRange(0, 39).Draw(t, label+"wide") == 0 {
+		wide = true
+		nf = rapid.SampledFrom([]int{33, 63, 64, 65, 66, 70, 100, 129, 200, 300}).Draw(t, label+"widen")
+		wideReq = rapid.SampledFrom([]int{0, 0, 50, 97}).Draw(t, label+"widereq")
+	}
 	used := map[uint16]bool{}
 	allowBig := c.BigIDs && bigIDTypes < BigIDBudget
 	maxid := 0
@@ -98,6 +108,9 @@ func genStruct(t *rapid.T, c GenCfg, nest int, label string) *StructSpec {
 			mode := 0
 			if c.BigIDs {
 				mode = rapid.IntRange(0, 99).Draw(t, "idmode")
+			}
+			if wide && mode < 85 {
+				mode = 0
 			}
 			switch {
 			case mode < 55:
@@ -132,6 +145,9 @@ func genStruct(t *rapid.T, c GenCfg, nest int, label string) *StructSpec {
 		if rb == 0 {
 			rb = 20
 		}
+		if wideReq > 0 {
+			rb = wideReq
+		}
 		r := rapid.IntRange(0, 99).Draw(t, "req")
 		switch {
 		case r < rb:
@@ -139,7 +155,11 @@ func genStruct(t *rapid.T, c GenCfg, nest int, label string) *StructSpec {
 		case r < rb+30:
 			f.Req = Optional
 		}
-		f.Type = genType(t, c, nest, 0, posField)
+		if wide && i >= 6 {
+			f.Type = scalarType(t, c, scalarKinds[rapid.IntRange(0, len(scalarKinds)-1).Draw(t, "widescalar")])
+		} else {
+			f.Type = genType(t, c, nest, 0, posField)
+		}
 		if f.Req == Optional && (f.Type.IsScalar() || f.Type.Kind == KString) {
 			f.GoPtr = rapid.IntRange(0, 3).Draw(t, "goptr") != 0
 		}
@@ -252,6 +272,9 @@ func GenSpelling(t *rapid.T) Spelling {
 	sp.ByteAlias = rapid.Bool().Draw(t, "bytealias")
 	sp.PkgQual = rapid.Bool().Draw(t, "pkgq")
 	sp.Spaces = uint8(rapid.IntRange(0, 15).Draw(t, "spaces"))
+	if rapid.IntRange(0, 3).Draw(t, "othertags") == 0 {
+		sp.Other = uint8(rapid.IntRange(1, 4).Draw(t, "othertag"))
+	}
 	return sp
 }
 
@@ -622,6 +645,10 @@ func (g *valGen) val(ts *TypeSpec, depth int) Val {
 		return Val{I: g.intIn(16)}
 	case KI32, KEnum:
 		g.budget -= 4
+		if ts.Kind == KEnum && g.c.WideEnums && rapid.IntRange(0, 5).Draw(t, "wideenum") == 0 {
+			// a Go enum variable is an int64: values beyond 32 bits exist (the wire carries the low 32 bits)
+			return Val{I: rapid.SampledFrom([]int64{1 << 32, 1<<32 + 5, -(1 << 32) - 1, 1 << 31, -(1 << 31) - 1, math.MaxInt64, math.MinInt64, 0x7fffffff00000001}).Draw(t, "wideenumv")}
+		}
 		return Val{I: g.intIn(32)}
 	case KI64:
 		g.budget -= 8
